@@ -504,6 +504,8 @@ def u_visit_yield(c):
 FOR_SCHEMAS = [
     ("name-target", "for i in __E1:\n    __S1\nelse:\n    __S2", ["i"], [("i", None, None, "i", True)]),
     ("tuple-target", "for a, b in __E1:\n    __S1", ["a", "b"], [("a", None, None, "a", True), ("b", None, None, "b", True)]),
+    ("tuple-target-binding-order", "for val, key in __E1:\n    __S1", ["val", "key"], [("val", None, None, "val", True), ("key", None, None, "key", True)]),
+    ("nested-target-binding-order", "for (z, y), x in __E1:\n    __S1", ["z", "y", "x"], [("z", None, None, "z", True), ("y", None, None, "y", True), ("x", None, None, "x", True)]),
     ("nested-tuple-target", "for a, (b, cc) in __E1:\n    __S1", ["a", "b", "cc"], [("a", None, None, "a", True), ("b", None, None, "b", True), ("cc", None, None, "cc", True)]),
     ("starred-target", "for a, *b in __E1:\n    __S1", ["a", "b"], [("a", None, None, "a", True), ("b", None, None, "b", True)]),
     ("list-target", "for [a, b] in __E1:\n    __S1", ["a", "b"], [("a", None, None, "a", True), ("b", None, None, "b", True)]),
@@ -607,6 +609,11 @@ FUNC_SCHEMAS = [
     ("docstring", "def f(a):\n    'doc'\n    __S1\n    return __E1", False, True),
     ("falls-off-the-end", "def f(a):\n    __S1", False, False),
     ("posonly", "def f(p, /, a):\n    return __E1", False, True),
+    ("ends-with-with-return", "def f(a):\n    with __E1:\n        return __E2", False, True),
+    ("ends-with-nested-with-raise", "def f(a):\n    with __E1:\n        with __E2 as w:\n            raise __E3", False, True),
+    ("ends-with-if-returns", "def f(a):\n    if __E1:\n        return 1\n    else:\n        return 2", False, True),
+    ("ends-with-try-return", "def f(a):\n    try:\n        return __E1\n    except __E2:\n        __S1", False, True),
+    ("ends-with-loop", "def f(a):\n    for i in __E1:\n        return i", False, True),
     ("nonlocal-closure", "def f(a):\n    nonlocal fv\n    fv = __E1\n    return fv", True, True),
 ]
 
@@ -739,6 +746,8 @@ SCOPE_PROGRAMS = [
     ("nested-class", "def f():\n    class A:\n        pass\n    return A()", {"A": "body"}),
     ("globals-read", "def f():\n    return len(GLOB)", {"len": "external", "GLOB": "external"}),
     ("closure", "def f():\n    return fv + 1", {"fv": "closure"}),
+    ("closure-read-only-in-nested-class-body", "def f():\n    class A:\n        inc = fv\n        glob = GLOB2\n    return A", {"fv": "closure", "A": "body"}),
+    ("closure-read-only-in-nested-def", "def f():\n    def g():\n        return fv\n    return g", {"fv": "closure", "g": "body"}),
 ]
 
 
@@ -768,7 +777,7 @@ def u_collector(c):
     it.policies[AST + ":NodeVisitor.visit_Constant"] = lambda it_, f, a, k: it_.call(it_.getattr(a[0], "generic_visit"), [a[1]], {})
     k = c.choose(len(SCOPE_PROGRAMS), "program")
     label, src, expect = SCOPE_PROGRAMS[k]
-    closure = ("fv",) if label == "closure" else ()
+    closure = ("fv",) if label.startswith("closure") else ()
     tree = ast.parse(src).body[0]
     st, evc = run(it, it.get_global(TR, "ExternalVariableCollector"), [tree, {}, closure])
     c.prove(f"{label}/collector-does-not-raise", st == "ok")
@@ -821,6 +830,12 @@ def outer(k):
         return y
     return closure
 
+def outer2(k):
+    def closure2(x, y=2, *rest, bias=7, tag="t"):
+        z = x + k + y + bias
+        return z, tag, rest
+    return closure2
+
 def gen(n):
     for i in range(n):
         yield i
@@ -840,7 +855,7 @@ class K:
 @unit("transform-orchestration", ["C01", "C10", "C05", "C14"], [TR + ":transform", TR + ":_compile", TR + ":PteraTransformer.__init__",
                                                                  TR + ":ExternalVariableCollector.__init__", TR + ":_readline_mock", TR + ":_standard_info",
                                                                  TR + ":_Conformer.__init__", TR + ":_gensym"],
-      mode="bounded", bound="five sample functions (plain, closure, generator, annotated/varargs/docstring, method) x {all variables, one variable}; "
+      mode="bounded", bound="six sample functions (plain, closure, closure with positional and keyword-only defaults, generator, annotated/varargs/docstring, method) x {all variables, one variable}; "
                             "inspect/tokenize/compile/exec executed natively on the concrete function",
       assumed=["inspect.getsource / getsourcelines / getsourcefile return the text the function was compiled from",
                "compile() and exec() of the rewritten tree behave as CPython documents"])
@@ -879,13 +894,32 @@ def u_transform_orchestration(c):
         spec = importlib.util.spec_from_file_location(os.path.basename(p)[:-3], p)
         mod = importlib.util.module_from_spec(spec)
         spec.loader.exec_module(mod)
-        which = c.choose(5, "function")
-        fn = [mod.plain, mod.outer(5), mod.gen, mod.annotated, mod.K.method][which]
-        label = ["plain", "closure", "generator", "annotated", "method"][which]
-        proceed = object()
+        which = c.choose(6, "function")
+        fn = [mod.plain, mod.outer(5), mod.gen, mod.annotated, mod.K.method, mod.outer2(3)][which]
+        label = ["plain", "closure", "generator", "annotated", "method", "closure-with-defaults"][which]
+        samples = {"plain": [(1,), (1, 5)], "closure": [(4,)], "generator": [], "annotated": [(3,), (3, 4, 5)], "method": [(None, 2)],
+                   "closure-with-defaults": [(1,), (1, 9), (1, 9, 8)]}[label]
+        ksamples = {"closure-with-defaults": [{}, {"bias": 1}, {"tag": "q", "bias": 0}], "annotated": [{}, {"flag": True, "extra": 1}]}.get(label, [{}])
+
+        class NProceed:
+            """A transparent native frame: interact returns the value it is given."""
+
+            def __init__(self, f):
+                pass
+
+            def __enter__(self):
+                return self
+
+            def __exit__(self, *a):
+                return None
+
+            def interact(self, v, k, cat, value, o):
+                return value
+
+        proceed = NProceed
         everything = bool(c.choose(2, "all-variables"))
         Element = it.get_global("ptera.selector", "Element")
-        first_local = {"plain": "c", "closure": "y", "generator": "i", "annotated": "z", "method": "w"}[label]
+        first_local = {"plain": "c", "closure": "y", "generator": "i", "annotated": "z", "method": "w", "closure-with-defaults": "z"}[label]
         to_instrument = True if everything else [it.call(Element, [], dict(name=first_local, capture=first_local))]
         glb = fn.__globals__
         before_name = glb.get(fn.__name__, "<<missing>>")
@@ -902,6 +936,32 @@ def u_transform_orchestration(c):
                 (before_name == "<<missing>>" and glb.get(fn.__name__) is None))
         c.prove(f"{label}/closure-cells-preserved", [cl.cell_contents for cl in (new.__closure__ or ())] == cells_before
                 and new.__code__.co_freevars == fn.__code__.co_freevars)
+        # behaviour on samples: with a transparent frame the rebuilt function returns what the original returns.  The rebuilt code is
+        # run by CPython, so the helper objects transform() put into the globals (created by the interpreter) are replaced by the
+        # real ones from the imported library
+        import importlib as _il
+
+        _u, _t, _g = _il.import_module("ptera.utils"), _il.import_module("ptera.transform"), _il.import_module("ptera.tags")
+        import builtins as _bi
+
+        glb.update({"__ptera_globals": _u.DictPile(glb, vars(_bi), default=_u.ABSENT), "__ptera_ABSENT": _u.ABSENT, "__ptera_Key": _t.Key,
+                    "__ptera_get_tags": _g.get_tags, "__ptera_enter_tag": _g.enter_tag, "__ptera_exit_tag": _g.exit_tag})
+        same = True
+        detail = ""
+        for a in samples:
+            for kw in ksamples:
+                try:
+                    want = ("ok", fn(*a, **kw))
+                except Exception as e:  # noqa
+                    want = ("raise", type(e).__name__)
+                try:
+                    got = ("ok", new(*a, **kw))
+                except Exception as e:  # noqa
+                    got = ("raise", type(e).__name__)
+                if want != got:
+                    same = False
+                    detail = f"args={a} kwargs={kw}: original {want} rebuilt {got}"
+        c.prove(f"{label}/rebuilt-function-behaves-like-the-original-on-samples", same, note=detail, only=["C01"])
         tok = getattr(new, "__ptera_token__", None)
         c.prove(f"{label}/token-is-a-global-holding-the-new-function", isinstance(tok, str) and glb.get(tok) is new)
         info = getattr(new, "__ptera_info__", None)
@@ -912,10 +972,10 @@ def u_transform_orchestration(c):
             import textwrap as _tw
 
             src = _tw.dedent(_inspect.getsource(fn))
-            wrapped = ("def __o():\n    k = 0\n" + "\n".join("    " + ln for ln in src.splitlines())) if label == "closure" else src
+            wrapped = ("def __o():\n    k = 0\n" + "\n".join("    " + ln for ln in src.splitlines())) if label.startswith("closure") else src
             top = symtable.symtable(wrapped, "<s>", "exec")
             fs = top.get_children()[0]
-            if label == "closure":
+            if label.startswith("closure"):
                 fs = fs.get_children()[0]
             want = {}
             for sym in fs.get_symbols():
